@@ -260,18 +260,22 @@ func (r *RPCExecuteProgramRequest) EncodeTo(e *types.Encoder) {
 // DecodeFrom implements ProtocolObject.
 func (r *RPCExecuteProgramRequest) DecodeFrom(d *types.Decoder) {
 	r.FileContractID.DecodeFrom(d)
-	r.Program = make([]Instruction, d.ReadUint64())
-	for i := range r.Program {
+	// NOTE: DecodeSliceFn validates the instruction count against the remaining
+	// input and grows the slice incrementally, so a bogus count cannot force a
+	// huge allocation
+	types.DecodeSliceFn(d, &r.Program, func(d *types.Decoder) Instruction {
 		var id types.Specifier
 		id.DecodeFrom(d)
-		r.Program[i] = instructionForID(id, d.ReadUint64())
-		if r.Program[i] == nil {
+		instr := instructionForID(id, d.ReadUint64())
+		if instr == nil {
 			d.SetErr(fmt.Errorf("unrecognized instruction id: %q", id))
-			return
+			return nil
 		}
-		if r.Program[i].DecodeFrom(d); d.Err() != nil {
-			return
-		}
+		instr.DecodeFrom(d)
+		return instr
+	})
+	if d.Err() != nil {
+		return
 	}
 	r.ProgramData = d.ReadBytes()
 }
